@@ -241,12 +241,15 @@ where
     Ok(())
 }
 
-async fn drain_buffers(from: &mut IOBufStream, to: &mut IOBufStream) -> IoResult<()> {
+// returns the number of read-ahead bytes handed over
+async fn drain_buffers(from: &mut IOBufStream, to: &mut IOBufStream) -> IoResult<usize> {
     let left_over = from.buffer();
+    let len = left_over.len();
     if !left_over.is_empty() {
         to.write_all(left_over).await?;
     }
-    to.flush().await
+    to.flush().await?;
+    Ok(len)
 }
 pub async fn copy_bidi(ctx: ContextRef, params: &IoParams) -> Result<(), Error> {
     let mut ctx_lock = ctx.write().await;
@@ -267,12 +270,14 @@ pub async fn copy_bidi(ctx: ContextRef, params: &IoParams) -> Result<(), Error> 
     let mut sdst = DstHalf::new("server");
     if let Some((mut client, mut server)) = streams {
         // Drain any buffers that may haven't been consumed or flushed.
-        drain_buffers(&mut client, &mut server)
+        let len = drain_buffers(&mut client, &mut server)
             .await
             .context("failed to drain client buffers")?;
-        drain_buffers(&mut server, &mut client)
+        client_stat.incr_sent_bytes(len);
+        let len = drain_buffers(&mut server, &mut client)
             .await
             .context("failed to drain server buffers")?;
+        server_stat.incr_sent_bytes(len);
 
         // Get the naked streams without buffers.
         let client = client.into_inner().into_inner();
